@@ -158,9 +158,12 @@ def _result_name(fn: ast.FunctionDef) -> str:
     rets = [n for n in ast.walk(fn) if isinstance(n, ast.Return) and n.value is not None]
     if not rets:
         raise AnalysisError(f"{fn.name}: no return")
-    nm = [x.id for x in ast.walk(rets[-1].value) if isinstance(x, ast.Name)]
+    # the LAST return in source order (ast.walk is breadth-first), and a local of the function — an early `return torch.ones(…)` for a special case names none
+    last = max(rets, key=lambda r_: (r_.lineno, r_.col_offset))
+    assigned = {t.id for n in ast.walk(fn) if isinstance(n, (ast.Assign, ast.AugAssign)) for t in ast.walk(n.targets[0] if isinstance(n, ast.Assign) else n.target) if isinstance(t, ast.Name)}
+    nm = [x.id for x in ast.walk(last.value) if isinstance(x, ast.Name) and x.id in assigned]
     if not nm:
-        raise AnalysisError(f"{fn.name}: the return value names no local")
+        raise AnalysisError(f"{fn.name}: the last return value names no local of the function")
     return nm[0]
 
 
@@ -208,6 +211,32 @@ def run(check, repo: Repo) -> None:
     check.extra["reference_source"] = ref_path
     check.assume("the installed scikit-image source is the reference the module claims to port; it is parsed, never imported")
 
+    # the port is compared with the reference function by function: a call to a module-level helper that is not one of the recorded functions (and that the inliner
+    # could not dissolve — a decorated / cached helper, for instance) hides part of the computation; then nothing is claimed
+    from ..core.alpha import pinned_table
+    module_defs = {n.name for n in mod.tree.body if isinstance(n, ast.FunctionDef)}
+    recorded = {k.split(":")[-1] for k in pinned_table() if k.startswith(RD + ":")}
+    # a memoised helper hands every caller the SAME tensor: modifying it in place (`*=`, `.mul_()`, subscript stores) corrupts the cache for the next request
+    cached = {n.name for n in mod.tree.body if isinstance(n, ast.FunctionDef) and any("cache" in unparse(d) for d in n.decorator_list)}
+    for f_ in [n for n in mod.tree.body if isinstance(n, ast.FunctionDef)]:
+        for st_ in ast.walk(f_):
+            if isinstance(st_, ast.Assign) and isinstance(st_.value, ast.Call) and isinstance(st_.value.func, ast.Name) and st_.value.func.id in cached \
+                    and len(st_.targets) == 1 and isinstance(st_.targets[0], ast.Name):
+                nm_ = st_.targets[0].id
+                muts = [x for x in ast.walk(f_) if (isinstance(x, ast.AugAssign) and dotted(x.target) == nm_)
+                        or (isinstance(x, ast.Call) and isinstance(x.func, ast.Attribute) and dotted(x.func.value) == nm_ and x.func.attr.endswith("_") and not x.func.attr.startswith("_"))
+                        or (isinstance(x, ast.Assign) and any(isinstance(t_, ast.Subscript) and dotted(t_.value) == nm_ for t_ in x.targets))]
+                rebound = [x for x in ast.walk(f_) if isinstance(x, ast.Assign) and x is not st_ and any(isinstance(t_, ast.Name) and t_.id == nm_ for t_ in x.targets)
+                           and x.lineno < min((m_.lineno for m_ in muts), default=10 ** 9)]
+                if muts and not rebound:
+                    check.violated("C07-R6", f"{f_.name}: the value returned by the memoised `{st_.value.func.id}` is not modified in place",
+                                   f"`{unparse(muts[0])[:60]}` writes into the tensor that `{st_.value.func.id}` (decorated with a cache) returns to every caller: the next request "
+                                   f"for the same arguments receives the already modified filter (a later 'ramp' request returns a windowed filter; a repeated window is applied twice)",
+                                   mod.line(muts[0]), definite=True)
+    for f_ in (gff, irad, rad):
+        for c_ in calls_in(f_):
+            if isinstance(c_.func, ast.Name) and c_.func.id in module_defs and c_.func.id not in recorded:
+                raise AnalysisError(f"{f_.name}: part of the computation lives in `{c_.func.id}`, which is not a recorded function and was not inlined — the comparison with the reference is not made")
     # ---- R1 filter table ---------------------------------------------------------------------------------
     t_res, r_res = _result_name(gff), _result_name(rff)
     t_arms, t_else = _arms(gff, "filter_name")
